@@ -5,6 +5,7 @@ mod c09;
 mod c10;
 mod c12;
 mod c13;
+mod c14;
 mod c15;
 mod c16;
 mod c17;
@@ -48,6 +49,7 @@ fn main() {
         "C10" | "C11" => c10::run(&mut check),
         "C12" => c12::run(&mut check),
         "C13" => c13::run(&mut check),
+        "C14" => c14::run(&mut check),
         "C15" => c15::run(&mut check),
         "C16" => c16::run(&mut check),
         "C17" => c17::run(&mut check),
